@@ -939,6 +939,83 @@ def rule_dep(repo, tier):
     return res
 
 
+def _scalar_terms(fnode):
+    """[(store stmt, term)]: additive terms written into a 2-D BLOCK (both indices slices) that are a bare component of the argument broadcast over the block
+    (x[..., k:].unsqueeze(-1), possibly scaled by constants) - no identity / skew / matrix factor"""
+    params = {a.arg for a in fnode.args.args}
+    defs = {}
+    for n in ast.walk(fnode):
+        if isinstance(n, ast.Assign):
+            if len(n.targets) == 1 and isinstance(n.targets[0], ast.Name):
+                defs.setdefault(n.targets[0].id, []).append(n.value)
+            elif len(n.targets) == 1 and isinstance(n.targets[0], ast.Tuple) and isinstance(n.value, ast.Tuple) and len(n.targets[0].elts) == len(n.value.elts):
+                for t, v in zip(n.targets[0].elts, n.value.elts):
+                    if isinstance(t, ast.Name):
+                        defs.setdefault(t.id, []).append(v)
+
+    def bare(e, depth=0):
+        """e is a component of a parameter reshaped by unsqueeze / [..., None] only"""
+        if depth > 6:
+            return False
+        if isinstance(e, ast.Name):
+            if e.id in params:
+                return False
+            ds = defs.get(e.id, [])
+            return len(ds) == 1 and bare(ds[0], depth + 1)
+        if isinstance(e, ast.Subscript):
+            return isinstance(e.value, ast.Name) and e.value.id in params or bare(e.value, depth + 1)
+        if isinstance(e, ast.Call) and isinstance(e.func, ast.Attribute) and e.func.attr in ('unsqueeze', 'clone', 'exp', 'neg') and not (dotted(e.func) or '').startswith('torch.'):
+            return bare(e.func.value, depth + 1)
+        if isinstance(e, ast.UnaryOp):
+            return bare(e.operand, depth + 1)
+        if isinstance(e, ast.BinOp) and isinstance(e.op, (ast.Mult, ast.Div)):
+            return (bare(e.left, depth + 1) and isinstance(e.right, ast.Constant)) or (bare(e.right, depth + 1) and isinstance(e.left, ast.Constant))
+        return False
+
+    def terms(e):
+        if isinstance(e, ast.BinOp) and isinstance(e.op, (ast.Add, ast.Sub)):
+            return terms(e.left) + terms(e.right)
+        return [e]
+    out = []
+    for n in ast.walk(fnode):
+        tgt = val = None
+        if isinstance(n, ast.Assign) and len(n.targets) == 1 and isinstance(n.targets[0], ast.Subscript):
+            tgt, val = n.targets[0], n.value
+        elif isinstance(n, ast.AugAssign) and isinstance(n.op, (ast.Add, ast.Sub)) and isinstance(n.target, ast.Subscript):
+            tgt, val = n.target, n.value
+        if tgt is None or not isinstance(tgt.slice, ast.Tuple) or len(tgt.slice.elts) < 2:
+            continue
+        if not (isinstance(tgt.slice.elts[-1], ast.Slice) and isinstance(tgt.slice.elts[-2], ast.Slice)):
+            continue
+        for t in terms(val):
+            if bare(t):
+                out.append((n, t))
+    return out
+
+
+@guarded
+def rule_scalei(repo):
+    """In the algebra adjoints and coupling matrices a scalar component (the log-scale sigma) enters a matrix block as sigma * I.  Written into a block as a bare
+    broadcast scalar it is added to all nine entries (sigma * ones): the forward values that read the diagonal only stay right, the series built on ad (sim3_Jl,
+    sim3_Jl_inv, the gradients of Sim3 Exp / Log / Adj) are wrong whenever sigma != 0."""
+    res = RuleResult('C04.SCALEI', 'no matrix block of the adjoint / Jacobian helpers receives a bare scalar component of the argument as an additive term: a scalar enters '
+                     'a block multiplied by an identity (or through a diagonal view)', floor=20)
+    n = 0
+    for q, f in repo.module(OP).functions.items():
+        if '.' in q:
+            continue
+        hits = _scalar_terms(f.node)
+        n += 1
+        res.inst({'function': f.fq, 'bare scalar terms in block stores': [src(t)[:40] for _, t in hits]}, f.fq)
+        for st, t in hits:
+            res.add(Finding('C04.SCALEI', f, '`%s` adds the scalar `%s` to EVERY entry of the block (broadcast): the scale part of the adjoint is sigma * I, it belongs on the '
+                            'diagonal only' % (src(st)[:70], src(t)[:40]), node=st, construct='scalar broadcast into a block'))
+    fx = ast.parse('def f(x):\n    s = x[..., 6:]\n    ad = g(x)\n    ad[..., :3, :3] += s.unsqueeze(-1)\n    ad[..., 3:6, :3] = P + s.unsqueeze(-1) * I3x3\n    return ad\n').body[0]
+    if len(_scalar_terms(fx)) != 1:
+        raise AnalysisError('C04.SCALEI: fixtures no longer classified')
+    return res
+
+
 def rules(repo, tier):
     from ..memo import rule_memo
     from ..optional import rule_optional
@@ -946,7 +1023,7 @@ def rules(repo, tier):
     from ..callsig import rule_callsig
     from ..docsig import rule_docsig
     from ..axisdefault import rule_axisdefault
-    return list(_rules_core(repo, tier)) + [rule_memo(repo, 'C04.MEMO', 'history independence: nothing computed from the contents of a tensor argument is kept '
+    return list(_rules_core(repo, tier)) + [__import__('sa.rules.c03', fromlist=['x']).rule_homo(repo, 'C04.HOMO'), rule_scalei(repo), rule_memo(repo, 'C04.MEMO', 'history independence: nothing computed from the contents of a tensor argument is kept '
                                                       'under the identity, address or version of that tensor, in module-level storage, or published from a generator '
                                                       'before it is complete - a later call with the same object and other contents must not be answered from it',
                                                       ['pypose.lietensor.lietensor', 'pypose.lietensor.operation', 'pypose.lietensor.basics', 'pypose.lietensor.utils'], floor=3),
